@@ -421,6 +421,8 @@ def sort_cases(rng, n):
     pools = {
         "int": lambda: str(rng.choice([0, 1, -1, 2, 3, 5, 2**31, 2**31 - 1, -(2**31), 2**63, 2**64, -(2**64), 7, 7, 3])),
         "num": lambda: rng.choice(["1", "1.0", "2", "2.0", "0.5", "-0.0", "0.0", "0", str(2**53), "float(%d)" % 2**53, str(2**53 + 1), "3", "-1", "-1.0", "1e100", str(10**100)]),
+        "numsmall": lambda: rng.choice(["1", "1.0", "2", "2.0", "0", "0.0", "-0.0", "3", "3.0", "-1", "-1.0", "0.5", "7", "7.0"]),
+        "tupnum": lambda: rng.choice(["(1, \"a\")", "(1.0, \"a\")", "(0, \"a\")", "(0.0, \"a\")", "(1, \"b\")", "(2.0, \"a\")", "(2, \"a\")"]),
         "str": lambda: '"%s"' % rng.choice(["", "a", "b", "ab", "aa", "B", "a", "ba", "\\u00e9", "z"]),
         "tup": lambda: "(%d, %s)" % (rng.randint(0, 2), rng.choice(['"a"', '"b"', '"a"'])),
         "list": lambda: "[%s]" % ", ".join(str(rng.randint(0, 2)) for _ in range(rng.randint(0, 3))),
@@ -451,7 +453,7 @@ def check_sort(rep, evs, cases, flavor, stats):
         if lt is None or not all(c in "01" for row in lt for c in row):
             continue
         xs = byname[name]
-        if any("nan" in x for x in xs) or lossy_int_float([x for x in xs if pyval(x) is not None][:0] or ["0"]) :
+        if any("nan" in x for x in xs):
             continue
         cmpf = functools.cmp_to_key(lambda a, b: -1 if lt[a][b] == "1" else (1 if lt[b][a] == "1" else 0))
         for which, res, rev in (("sorted(xs)", e[4], False), ("sorted(xs, reverse=True)", e[5], True)):
